@@ -1,4 +1,4 @@
-import UgoVerif.Proofs.ShiftOps
+import UgoVerif.Proofs.ShiftCall
 /-
   C14, the RETURN of the callee under the offset relation: the child's loop returns (frame 0 is the
   only frame), the parent goes back to the caller's frame; the value the child's `Run` reads at
@@ -6,6 +6,7 @@ import UgoVerif.Proofs.ShiftOps
 -/
 set_option linter.unusedSimpArgs false
 set_option linter.unusedVariables false
+set_option maxHeartbeats 1600000
 namespace UgoVerif.Proofs.Shift
 open UgoVerif UgoVerif.Go UgoVerif.VM
 
@@ -112,7 +113,7 @@ theorem clearDown_inv (hi lo : Int) (s s' : State) (r : Unit) (h : exec (clearDo
 
 /-- child `s` and parent `t` between the write of the result (child slot `rc`, parent slot `rp`) and
     the end of RETURN: same heap, globals, module cache; the two result slots hold the same value -/
-structure Rt (k : Nat) (rc rp : Nat) (s t : State) : Prop where
+structure Rt (T0 : State) (bp k : Nat) (rc rp : Nat) (s t : State) : Prop where
   heap : s.heap = t.heap
   globals : s.globals = t.globals
   modules : s.modules = t.modules
@@ -121,32 +122,46 @@ structure Rt (k : Nat) (rc rp : Nat) (s t : State) : Prop where
   errS : s.err = none
   errT : t.err = none
   res : s.stack[rc]! = t.stack[rp]!
+  szT : t.stack.size = stackSize
+  lowF : ∀ j : Nat, j < k → t.frames[j]! = T0.frames[j]!
+  lowS : ∀ i : Nat, i + 1 < bp → t.stack[i]! = T0.stack[i]!
+  curT : t.curFrame = k
 
-variable {bp k N L : Nat} {a : Int}
+variable {T0 : State} {bp k d H N : Nat} {a : Int}
 
 /-- both write the result `v`: the child into its slot `i`, the parent into its slot `j` -/
-theorem sh_rt_stackSet (i j : Int) (v : V) :
-    RelS (Sh bp k N a) (PQ (fun _ _ => True) (Rt k i.toNat j.toNat)) (stackSet i v) (stackSet j v) := by
+theorem sh_rt_stackSet (i j : Int) (v : V) (hjb : (bp : Int) - 1 ≤ j) :
+    RelS (Sh T0 bp k 0 H N a) (PQ (fun _ _ => True) (Rt T0 bp k i.toNat j.toNat)) (stackSet i v) (stackSet j v) := by
   intro s t h x s' y t' h1 h2
   obtain ⟨_, hi, rfl⟩ := stackSet_inv _ _ _ _ _ h1
   obtain ⟨_, hj, rfl⟩ := stackSet_inv _ _ _ _ _ h2
-  refine ⟨trivial, ⟨h.heap, h.globals, h.modules, h.fiS, h.fiT, h.errS, h.errT, ?_⟩⟩
-  show (s.stack.set! i.toNat v)[i.toNat]! = (t.stack.set! j.toNat v)[j.toNat]!
-  rw [getElem!_set!, getElem!_set!, h.shapeS.stack, h.shapeT.stack]
-  have c1 : i.toNat = i.toNat ∧ i.toNat < stackSize := ⟨rfl, by omega⟩
-  have c2 : j.toNat = j.toNat ∧ j.toNat < stackSize := ⟨rfl, by omega⟩
-  rw [if_pos c1, if_pos c2]
+  refine ⟨trivial, ⟨h.heap, h.globals, h.modules, by have := h.fiS; show s.frameIndex = 1; omega, by have := h.fiT; show t.frameIndex = (k : Int) + 1; omega, h.errS, h.errT, ?_, ?_, h.lowF, ?_, by have := h.curT; show t.curFrame = k; omega⟩⟩
+  rotate_right
+  · intro i' hi'
+    show (t.stack.set! j.toNat v)[i']! = T0.stack[i']!
+    rw [getElem!_set!]
+    have c : ¬ (j.toNat = i' ∧ j.toNat < t.stack.size) := fun c => by omega
+    rw [if_neg c]
+    exact h.lowS i' hi'
+  · show (s.stack.set! i.toNat v)[i.toNat]! = (t.stack.set! j.toNat v)[j.toNat]!
+    rw [getElem!_set!, getElem!_set!, h.shapeS.stack, h.shapeT.stack]
+    have c1 : i.toNat = i.toNat ∧ i.toNat < stackSize := ⟨rfl, by omega⟩
+    have c2 : j.toNat = j.toNat ∧ j.toNat < stackSize := ⟨rfl, by omega⟩
+    rw [if_pos c1, if_pos c2]
+  · show (t.stack.set! j.toNat v).size = stackSize
+    simp [Array.set!_eq_setIfInBounds, h.shapeT.stack]
 
-theorem rt_clearDown (rc rp : Nat) (h1 l1 h2 l2 : Int) (hc : (rc : Int) < l1) (hp : (rp : Int) < l2) :
-    RelS (Rt k rc rp) (PQ (fun _ _ => True) (Rt k rc rp)) (clearDown h1 l1) (clearDown h2 l2) := by
+theorem rt_clearDown (rc rp : Nat) (h1 l1 h2 l2 : Int) (hc : (rc : Int) < l1) (hp : (rp : Int) < l2) (hl2 : (bp : Int) - 1 ≤ l2) :
+    RelS (Rt T0 bp k rc rp) (PQ (fun _ _ => True) (Rt T0 bp k rc rp)) (clearDown h1 l1) (clearDown h2 l2) := by
   intro s t h x s' y t' e1 e2
   obtain ⟨a1, _, a3⟩ := clearDown_inv _ _ _ _ _ e1
-  obtain ⟨b1, _, b3⟩ := clearDown_inv _ _ _ _ _ e2
+  obtain ⟨b1, b2, b3⟩ := clearDown_inv _ _ _ _ _ e2
   refine ⟨trivial, ?_⟩
   rw [a1, b1]
   exact ⟨h.heap, h.globals, h.modules, h.fiS, h.fiT, h.errS, h.errT, by
     show s'.stack[rc]! = t'.stack[rp]!
-    rw [a3 rc hc, b3 rp hp]; exact h.res⟩
+    rw [a3 rc hc, b3 rp hp]; exact h.res, by show t'.stack.size = stackSize; rw [b2]; exact h.szT, h.lowF,
+    fun i hi => by show t'.stack[i]! = T0.stack[i]!; rw [b3 i (by omega)]; exact h.lowS i hi, h.curT⟩
 
 /-! ### back to the caller's frame (parent only) -/
 
@@ -164,7 +179,8 @@ def retUp (fi : Int) : M Ctl := do
 
 theorem retUp_inv (fi : Int) (t t' : State) (r : Ctl) (h : exec (retUp fi) t = (.ok r, t')) :
     r = .next ∧ t'.heap = t.heap ∧ t'.globals = t.globals ∧ t'.modules = t.modules ∧ t'.err = t.err ∧
-    t'.stack = t.stack ∧ t'.sp = t.sp ∧ t'.frameIndex = t.frameIndex - 1 ∧ t'.curFrame = (fi - 2).toNat := by
+    t'.stack = t.stack ∧ t'.sp = t.sp ∧ t'.frameIndex = t.frameIndex - 1 ∧ t'.curFrame = (fi - 2).toNat ∧
+    (∀ j : Nat, j ≠ t.curFrame → t'.frames[j]! = t.frames[j]!) := by
   unfold retUp clearCurrentFrame at h
   simp only [exec_bind] at h
   have e0 : ∀ (f : Frame → Frame) (u : State), exec (setCurFrame f) u = (.ok (), { u with frames := u.frames.modify u.curFrame f }) :=
@@ -186,13 +202,19 @@ theorem retUp_inv (fi : Int) (t t' : State) (r : Ctl) (h : exec (retUp fi) t = (
     · simp at h
     · simp only [exec_pure, Prod.mk.injEq, Except.ok.injEq] at h
       obtain ⟨rfl, rfl⟩ := h
-      exact ⟨rfl, rfl, rfl, rfl, rfl, rfl, rfl, rfl, rfl⟩
+      refine ⟨rfl, rfl, rfl, rfl, rfl, rfl, rfl, rfl, rfl, ?_⟩
+      intro j hj
+      show (t.frames.modify t.curFrame _)[j]! = t.frames[j]!
+      rw [getElem!_modify]
+      have c : ¬ (t.curFrame = j ∧ j < t.frames.size) := fun c => hj c.1.symm
+      rw [if_neg c]
 
 /-- what RETURN establishes between the child (its loop returns) and the parent (back in the caller) -/
-def RetQ (bp k : Nat) (r r' : Ctl) (s' t' : State) : Prop :=
+def RetQ (T0 : State) (bp k : Nat) (r r' : Ctl) (s' t' : State) : Prop :=
   r = .ret ∧ r' = .next ∧ s'.heap = t'.heap ∧ s'.globals = t'.globals ∧ s'.modules = t'.modules ∧
   s'.err = none ∧ t'.err = none ∧ s'.frameIndex = 1 ∧ t'.frameIndex = k ∧ t'.sp = bp ∧ 1 ≤ s'.sp ∧
-  s'.stack[(s'.sp - 1).toNat]! = t'.stack[(t'.sp - 1).toNat]!
+  s'.stack[(s'.sp - 1).toNat]! = t'.stack[(t'.sp - 1).toNat]! ∧ t'.stack.size = stackSize ∧
+  (∀ j : Nat, j < k → t'.frames[j]! = T0.frames[j]!) ∧ (∀ i : Nat, i + 1 < bp → t'.stack[i]! = T0.stack[i]!)
 
 /-- everything of RETURN after the result slot is written -/
 def retRest (hi b : Int) : M Ctl := do
@@ -203,9 +225,9 @@ def retRest (hi b : Int) : M Ctl := do
   retUp s.frameIndex
 
 theorem rel_retRest (hk : 1 ≤ k) (hbp : 1 ≤ bp) (c hi hi' : Int) (hc : 1 ≤ c) :
-    RelS (Rt k (c - 1).toNat ((bp : Int) - 1).toNat) (RetQ bp k) (retRest hi c) (retRest hi' bp) := by
+    RelS (Rt T0 bp k (c - 1).toNat ((bp : Int) - 1).toNat) (RetQ T0 bp k) (retRest hi c) (retRest hi' bp) := by
   unfold retRest
-  refine RelS.bindV (rt_clearDown _ _ _ _ _ _ (by omega) (by omega)) ?_
+  refine RelS.bindV (rt_clearDown _ _ _ _ _ _ (by omega) (by omega) (by omega)) ?_
   intro _ _ _
   intro s t h r s' r' t' h1 h2
   have es : ∀ (v : Int) (u : State), exec (setSp v) u = (.ok (), { u with sp := v }) := fun _ _ => rfl
@@ -219,8 +241,8 @@ theorem rel_retRest (hk : 1 ≤ k) (hbp : 1 ≤ bp) (c hi hi' : Int) (hc : 1 ≤
   rw [if_neg c2] at h2
   simp only [exec_pure, Prod.mk.injEq, Except.ok.injEq] at h1
   obtain ⟨rfl, rfl⟩ := h1
-  obtain ⟨q1, q2, q3, q4, q5, q6, q7, q8, q9⟩ := retUp_inv _ _ _ _ h2
-  refine ⟨rfl, q1, ?_, ?_, ?_, h.errS, ?_, h.fiS, ?_, ?_, hc, ?_⟩
+  obtain ⟨q1, q2, q3, q4, q5, q6, q7, q8, q9, q10⟩ := retUp_inv _ _ _ _ h2
+  refine ⟨rfl, q1, ?_, ?_, ?_, h.errS, ?_, h.fiS, ?_, ?_, hc, ?_, ?_, ?_, ?_⟩
   · rw [q2]; exact h.heap
   · rw [q3]; exact h.globals
   · rw [q4]; exact h.modules
@@ -228,19 +250,39 @@ theorem rel_retRest (hk : 1 ≤ k) (hbp : 1 ≤ bp) (c hi hi' : Int) (hc : 1 ≤
   · rw [q8]; show t.frameIndex - 1 = k; rw [h.fiT]; omega
   · rw [q7]
   · rw [q6, q7]; exact h.res
+  · rw [q6]; exact h.szT
+  · intro j hj
+    rw [q10 j (by show j ≠ t.curFrame; rw [h.curT]; omega)]
+    exact h.lowF j hj
+  · intro i hi
+    rw [q6]
+    exact h.lowS i hi
 
-/-- **RETURN.**  From `Sh`-related states (`bp ≥ 1`: the callee value lies below the frame; `k ≥ 1`: the
-    parent has a caller frame) -/
+theorem sh_curFrame0 :
+    RelS (Sh T0 bp k 0 H N a) (PQ (fun f g => FrameSh bp H f g ∧ f.bp = 0) (Sh T0 bp k 0 H N a)) curFrame curFrame :=
+  (sh_curFrame_P (fun f => f.bp = 0)).conseq (fun s t h => ⟨h, h.bp0⟩) (fun _ _ _ _ h => h)
+
+theorem sh_curFrame_pos :
+    RelS (Sh T0 bp k (d + 1) H N a) (PQ (fun f g => FrameSh bp H f g ∧ 1 ≤ f.bp) (Sh T0 bp k (d + 1) H N a)) curFrame curFrame :=
+  (sh_curFrame_P (fun f => 1 ≤ f.bp)).conseq (fun s t h => ⟨h, h.bpPos (d + 1) (by omega) (Nat.le_refl _)⟩) (fun _ _ _ _ h => h)
+
+/-- **RETURN of the invoked function itself.**  From `Sh`-related states at depth 0 (`bp ≥ 1`: the callee value
+    lies below the frame; `k ≥ 1`: the parent has a caller frame) -/
 theorem sh_execReturn (ha : a ≤ N) (hk : 1 ≤ k) (hbp : 1 ≤ bp) :
-    RelS (Sh bp k N a) (RetQ bp k) execReturn execReturn := by
+    RelS (Sh T0 bp k 0 H N a) (RetQ T0 bp k) execReturn execReturn := by
   unfold execReturn
   sh1
-  sh1
+  refine RelS.bindV sh_curFrame0 ?_
+  rintro ⟨fn1, fr1, ip1, bp1, hs1, d1⟩ ⟨fn2, fr2, ip2, bp2, hs2, d2⟩ ⟨⟨e1, e2, e3, e4, e5, e6⟩, e7⟩
+  simp only at e1 e2 e3 e4 e5 e6 e7
+  subst e7
+  subst e1 e2 e3 e5
+  dsimp only
   have e1 : ((0 : Int) == 0) = true := rfl
-  have e2 : ¬ (((bp : Int) == 0) = true) := by simp; omega
+  have e2 : ¬ (((0 : Int) + (bp : Int) == 0) = true) := by simp; omega
   rw [if_pos e1, if_neg e2]
-  rename_i numRet fn fr ip1 d ip2
-  cases fn with
+  rename_i numRet
+  cases fn1 with
   | none => exact RelS.errL_bind _ _
   | some fa =>
     dsimp only
@@ -249,51 +291,138 @@ theorem sh_execReturn (ha : a ≤ N) (hk : 1 ≤ k) (hbp : 1 ≤ bp) :
     sh1
     apply RelS.ite
     · sh1
-      refine RelS.bindV (sh_rt_stackSet _ _ _) ?_
+      refine RelS.bindV (sh_rt_stackSet _ _ _ (by omega)) ?_
       intro _ _ _
-      have := rel_retRest (k := k) hk hbp ((cf.1.numLocals : Int) + 1) (a - 1) (a + bp - 1) (by omega)
+      have := rel_retRest (T0 := T0) (k := k) hk hbp ((cf.1.numLocals : Int) + 1) (a - 1) (a + bp - 1) (by omega)
+      have eq : (0 : Int) + (bp : Int) = (bp : Int) := by omega
+      rw [eq]
       exact this
-    · refine RelS.bindV (sh_rt_stackSet _ _ _) ?_
+    · refine RelS.bindV (sh_rt_stackSet _ _ _ (by omega)) ?_
       intro _ _ _
-      have := rel_retRest (k := k) hk hbp ((cf.1.numLocals : Int) + 1) (a - 1) (a + bp - 1) (by omega)
+      have := rel_retRest (T0 := T0) (k := k) hk hbp ((cf.1.numLocals : Int) + 1) (a - 1) (a + bp - 1) (by omega)
+      have eq : (0 : Int) + (bp : Int) = (bp : Int) := by omega
+      rw [eq]
       exact this
 
-/-- RETURN at the level of `step`: the fetched opcode is RETURN -/
-theorem return_shift (F : FloatOps) (hk : 1 ≤ k) (hbp : 1 ≤ bp) :
-    RelS (fun s t => ShB bp k L s t ∧ ∀ op s1, exec fetchOp s = (.ok op, s1) → op = OpReturn) (RetQ bp k) (step F) (step F) := by
-  intro s t ⟨⟨N, a, h, ha, hL⟩, hok⟩ r s' r' t' h1 h2
-  rw [step_eq, exec_bind] at h1 h2
-  rcases e1 : exec fetchOp s with ⟨r1, s1⟩
-  rcases e2 : exec fetchOp t with ⟨r2, t1⟩
-  rw [e1] at h1
-  rw [e2] at h2
-  cases r1 with
-  | error e => simp at h1
-  | ok op =>
-    cases r2 with
-    | error e => simp at h2
-    | ok op' =>
-      simp only at h1 h2
-      obtain ⟨hop, hs1⟩ := sh_fetchOp s t h op s1 op' t1 e1 e2
-      subst hop
-      have hop := hok op s1 e1
-      subst hop
-      rw [exec_bind] at h1 h2
-      rcases e3 : exec (noteTrace OpReturn) s1 with ⟨r3, s2⟩
-      rcases e4 : exec (noteTrace OpReturn) t1 with ⟨r4, t2⟩
-      rw [e3] at h1
-      rw [e4] at h2
-      cases r3 with
-      | error e => simp at h1
-      | ok u =>
-        cases r4 with
-        | error e => simp at h2
-        | ok u' =>
-          simp only at h1 h2
-          have hs2 := (sh_noteTrace OpReturn s1 t1 hs1 u s2 u' t2 e3 e4).2
-          have hd : dispatch F OpReturn = execReturn := rfl
-          rw [hd] at h1 h2
-          exact sh_execReturn ha hk hbp s2 t2 hs2 r s' r' t' h1 h2
+/-! ### RETURN of a nested call -/
+
+theorem Sh.leave {s t : State} (h : Sh T0 bp k (d + 1) H N a s t) (F : Frame → Frame) :
+    Sh T0 bp k d H N a
+      { s with frames := s.frames.modify s.curFrame F, frameIndex := s.frameIndex - 1, curFrame := (s.frameIndex - 2).toNat,
+               ip := ((s.frames.modify s.curFrame F)[(s.frameIndex - 2).toNat]!).ip }
+      { t with frames := t.frames.modify t.curFrame F, frameIndex := t.frameIndex - 1, curFrame := (t.frameIndex - 2).toNat,
+               ip := ((t.frames.modify t.curFrame F)[(t.frameIndex - 2).toNat]!).ip } := by
+  have hsS := h.shapeS.frames
+  have hsT := h.shapeT.frames
+  have hfs := h.fiS
+  have hft := h.fiT
+  have hk := h.kLt
+  have e1 : (s.frameIndex - 2).toNat = d := by omega
+  have e2 : (t.frameIndex - 2).toNat = k + d := by omega
+  have gS : ∀ j, j ≤ d → (s.frames.modify s.curFrame F)[j]! = s.frames[j]! := by
+    intro j hj
+    rw [getElem!_modify, h.curS]
+    have c : ¬ (d + 1 = j ∧ j < s.frames.size) := fun c => by omega
+    rw [if_neg c]
+  have gT : ∀ j, j ≤ d → (t.frames.modify t.curFrame F)[k + j]! = t.frames[k + j]! := by
+    intro j hj
+    rw [getElem!_modify, h.curT]
+    have c : ¬ (k + (d + 1) = k + j ∧ k + j < t.frames.size) := fun c => by omega
+    rw [if_neg c]
+  refine { h with ip := ?_, curS := e1, curT := e2, fiS := by show s.frameIndex - 1 = _; omega,
+                  fiT := by show t.frameIndex - 1 = _; omega,
+                  shapeS := ⟨h.shapeS.stack, by simp [hsS]⟩, shapeT := ⟨h.shapeT.stack, by simp [hsT]⟩,
+                  kLt := by omega, frames := ?_, ips := ?_, bp0 := ?_, bpPos := ?_, lowF := ?_ }
+  rotate_right
+  · intro j hj
+    show (t.frames.modify t.curFrame F)[j]! = T0.frames[j]!
+    rw [getElem!_modify, h.curT]
+    have c : ¬ (k + (d + 1) = j ∧ j < t.frames.size) := fun c => by omega
+    rw [if_neg c]
+    exact h.lowF j hj
+  · show ((s.frames.modify s.curFrame F)[(s.frameIndex - 2).toNat]!).ip = ((t.frames.modify t.curFrame F)[(t.frameIndex - 2).toNat]!).ip
+    rw [e1, e2, gS d (Nat.le_refl _), gT d (Nat.le_refl _)]
+    exact h.ips d (by omega)
+  · intro j hj
+    show FrameSh bp H ((s.frames.modify s.curFrame F)[j]!) ((t.frames.modify t.curFrame F)[k + j]!)
+    rw [gS j hj, gT j hj]
+    exact h.frames j (by omega)
+  · intro j hj
+    show ((s.frames.modify s.curFrame F)[j]!).ip = ((t.frames.modify t.curFrame F)[k + j]!).ip
+    rw [gS j (by omega), gT j (by omega)]
+    exact h.ips j (by omega)
+  · show ((s.frames.modify s.curFrame F)[0]!).bp = 0
+    rw [gS 0 (by omega)]
+    exact h.bp0
+  · intro j h1 hj
+    show 1 ≤ ((s.frames.modify s.curFrame F)[j]!).bp
+    rw [gS j hj]
+    exact h.bpPos j h1 (by omega)
+
+/-- back to the frame below, on both sides -/
+theorem sh_retUp (fi fi' : Int) (h1 : fi = (d : Int) + 2) (h2 : fi' = (k : Int) + (d : Int) + 2) (ha : a ≤ N) (hH : H ≤ N) :
+    RelS (Sh T0 bp k (d + 1) H N a) (PostC T0 bp k) (retUp fi) (retUp fi') := by
+  subst h1; subst h2
+  intro s t h r s' r' t' e1 e2
+  have hfs := h.fiS
+  have hft := h.fiT
+  have hk := h.kLt
+  unfold retUp clearCurrentFrame at e1 e2
+  have ec : ∀ (F : Frame → Frame) (u : State), exec (setCurFrame F) u = (.ok (), { u with frames := u.frames.modify u.curFrame F }) :=
+    fun _ _ => rfl
+  have ecf : ∀ u : State, exec curFrame u = (.ok (u.frames[u.curFrame]!), u) := fun _ => rfl
+  have ei : ∀ (v : Int) (u : State), exec (setIp v) u = (.ok (), { u with ip := v }) := fun _ _ => rfl
+  have c1 : (decide ((d : Int) + 2 - 2 < 0) || decide ((d : Int) + 2 - 2 ≥ (frameSize : Int))) = false := by
+    simp only [frameSize] at hk ⊢; simp; omega
+  have c2 : (decide ((k : Int) + (d : Int) + 2 - 2 < 0) || decide ((k : Int) + (d : Int) + 2 - 2 ≥ (frameSize : Int))) = false := by
+    simp only [frameSize] at hk ⊢; simp; omega
+  simp only [exec_bind, ec, c1, c2, Bool.false_eq_true, if_false, exec_modS, ecf, ei] at e1 e2
+  have hl := h.leave (fun f => { f with free := none, fn := none, handlers := none })
+  have p1 : ((d : Int) + 2 - 2).toNat = (s.frameIndex - 2).toNat := by omega
+  have p2 : ((k : Int) + (d : Int) + 2 - 2).toNat = (t.frameIndex - 2).toNat := by omega
+  rw [p1] at e1
+  rw [p2] at e2
+  split at e1
+  · simp at e1
+  · split at e2
+    · simp at e2
+    · simp only [exec_pure, Prod.mk.injEq, Except.ok.injEq] at e1 e2
+      obtain ⟨rfl, rfl⟩ := e1
+      obtain ⟨rfl, rfl⟩ := e2
+      exact Or.inl ⟨rfl, rfl, d, H, N, a, hl, ha, hH⟩
+
+/-- **RETURN of a nested call** (the current frame lies above the invoked function's frame): both sides go back
+    to the frame below -/
+theorem sh_execReturnUp (ha : a ≤ N) (hH : H ≤ N) :
+    RelS (Sh T0 bp k (d + 1) H N a) (PostC T0 bp k) execReturn execReturn := by
+  unfold execReturn
+  sh1
+  refine RelS.bindV sh_curFrame_pos ?_
+  rintro ⟨fn1, fr1, ip1, bp1, hs1, d1⟩ ⟨fn2, fr2, ip2, bp2, hs2, d2⟩ ⟨⟨e1, e2, e3, e4, e5, e6⟩, e7⟩
+  simp only at e1 e2 e3 e4 e5 e6 e7
+  subst e1 e2 e3 e5
+  dsimp only
+  have c1 : ¬ ((bp1 == 0) = true) := by simp; omega
+  have c2 : ¬ ((bp1 + (bp : Int) == 0) = true) := by simp; omega
+  rw [if_neg c1, if_neg c2]
+  sh1
+  have rest : ∀ N1, N ≤ N1 → RelS (Sh T0 bp k (d + 1) H N1 a) (PostC T0 bp k) (retRest (a - 1) bp1) (retRest (a + bp - 1) (bp1 + bp)) := by
+    intro N1 hN1
+    unfold retRest
+    sh1; sh1
+    refine RelS.bindV sh_getS ?_
+    intro x y hxy
+    have f1 := hxy.fiS
+    have f2 := hxy.fiT
+    have c3 : ¬ ((x.frameIndex == 1) = true) := by simp; omega
+    have c4 : ¬ ((y.frameIndex == 1) = true) := by simp; omega
+    rw [if_neg c3, if_neg c4]
+    exact sh_retUp _ _ (by omega) (by omega) (by omega) (by omega)
+  apply RelS.ite
+  · sh1; sh1
+    exact rest _ (by omega)
+  · sh1
+    exact rest _ (by omega)
 
 /-- the epilogue of the child's `Run`: `resultValue` reads `stack[sp-1]` and DEREFERENCES an
     `*ObjectPtr`; the in-script caller finds the raw slot value -/
